@@ -152,7 +152,7 @@ CHECKS = {
     "C17": core(
         "c17",
         "states = operand pairs of the C04 plan (FULL^2 at 8 bits, reduced boundary sets beyond) x typed shift amounts x bnum-typed amounts below BITS; every trait form (four value/reference combinations, op-assign by value and by reference, for + - * / % & | ^, << >> with each of the 12 primitive amount types and BUint/BInt amounts, unary - and !, PartialEq/PartialOrd/Ord, Default, FromStr, Add/Div/Rem<digit>) against the inherent method, both under catch_unwind; all sequences of two assign operations from 14 against the by-value fold; Sum / Product of every sequence of length <= 4 over an 8-value alphabet (4681 sequences) against the left fold; both build profiles",
-        "Every std trait implementation computes the same value and has the same panic outcome as the corresponding inherent method on every enumerated state, in both build modes (quick tier: 8 types, one per digit width; thorough: every core configuration).",
+        "Every std trait implementation computes the same value and has the same panic outcome as the corresponding inherent method on every enumerated state, in both build modes (quick tier: 18 types - every digit width, narrow and many-digit shapes; thorough: every core configuration).",
         "DESIGN.md section 5 C17",
         "differential against the inherent methods (which C01-C08 decide against the model); " + NOTE_MODEL,
         technique="bounded exhaustive differential state enumeration: trait form vs inherent form of the real code on every state (explicit-state model checking, operation sequences up to depth 2 / fold length 4)",
@@ -171,7 +171,7 @@ CHECKS = {
         "states = (source value, primitive type, bnum type): for each of the 12 primitive integers its FULL / boundary value set plus the target's bounds +-2, FromPrimitive::from_* and ToPrimitive::to_* against representability, AsPrimitive::as_ in both directions against the As cast; from_f32 / from_f64 on the structured float patterns plus the floats around +-2^BITS, +-2^(BITS-1); to_f32 / to_f64 on values and rounding patterns; targets narrower than the source included (8, 16, 24 bits); non-trivial = expected None",
         "FromPrimitive / ToPrimitive return Some exactly for representable values (floats: truncated toward zero, None for NaN / infinities / out of range), AsPrimitive equals the As cast, on every enumerated state.",
         "DESIGN.md section 5 C19",
-        NOTE_MODEL + "; bnum built with features numtraits, rand; quick tier: 7 bnum types incl. the narrow ones, thorough: all core configurations",
+        NOTE_MODEL + "; bnum built with features numtraits, rand; quick tier: 9 pairs of bnum types incl. the narrow ones and widths between 64 and 128 bits, thorough: all core configurations",
         pkg="vfeat",
         extra={"bin_thorough": "c19t"},
     ),
@@ -180,7 +180,7 @@ CHECKS = {
         "the RNG is a scripted byte stream (zeros after exhaustion, so rejection loops terminate); states = (low, high, first word[, second word]): 8 bits: ALL ranges low <= high x ALL 256 first words x 6 samplers (Uniform::new_inclusive/new + sample, gen_range(a..=b), gen_range(a..b), sample_single_inclusive, sample_single), every second word after a rejected first word for the boundary ranges (deviation bound 1); 16 bits: boundary ranges x ALL 65536 words; 24 bits: selected ranges (sizes 3, 2^23, 2^23+1, 2^24, ...) x ALL 2^24 words; wider: boundary ranges x boundary words; oracle = membership in [low, high] and, wherever all first words are enumerated, the exact number of accepted first words per value is equal and >= 1; Standard / Fill / try_fill_slice = little-endian image of the script (slices of length 0..3)",
         "Every sampled value lies in the requested range and the accepted RNG words map onto the range with equal preimage counts (exactly counted up to 24 bits); Standard sampling and slice fills take every digit from the stream in little-endian order.",
         "DESIGN.md section 5 C20",
-        "no reference model of the sampling algorithm: range membership and exact preimage counting only; bnum built with features numtraits, rand; uniformity is not enumerated above 24 bits; quick tier: 10 configurations (every digit type, N = 1 and multi-digit), thorough: all core configurations",
+        "no reference model of the sampling algorithm: range membership and exact preimage counting only; bnum built with features numtraits, rand; uniformity is not enumerated above 24 bits; quick tier: 14 configurations (every digit type, N = 1 and multi-digit), thorough: all core configurations",
         pkg="vfeat",
         extra={"bin_thorough": "c20t"},
     ),
